@@ -82,7 +82,8 @@ def simulate (g : Group) (phase cause : String) (notif : List Nat) (at? : Option
   if panicked then m else
   let m := m.act c .enterReader
   -- the echo round trip that tells the client the reader is up
-  let m := if phase != "connecting" then m.acts c [.recvInline, .inlineReturn (some 1)] else m
+  -- (in phase `connecting` the request was pipelined while the connect callbacks were running)
+  let m := m.acts c [.recvInline, .inlineReturn (some 1)]
   let m := match phase with
     | "inline" => m.act c .recvInline
     | "parked" => m.act c (.recvOff 2)
